@@ -25,18 +25,28 @@ namespace
     int tasks = 0;
     const std::vector<std::vector<char>>* adj = nullptr;
     std::string violation;
+    // fault injection: in assemble() call number fail_job the task operation 'fail_kind' throws
+    // (1 = constructor of the fail_arg-th task created in that call, 2 = prepare(cell fail_arg), 3 = scatter(cell fail_arg),
+    //  4 = the fail_arg-th combine() of that call, 5 = assemble() of cell fail_arg)
+    int fail_kind = 0; long fail_arg = 0; int fail_job = 0;
+    int cur_job = 0, job_tasks = 0, job_combines = 0, faults_thrown = 0;
+    std::vector<int> job_assembled, job_scattered;   // counts of the current assemble() call
     void init(Index n, const std::vector<std::vector<char>>* a)
     {
       ncells = n; assembled.assign(n, 0); scattered.assign(n, 0); adj = a; in_combine = 0; combines = 0; tasks = 0; violation.clear();
       for(int i = 0; i < VS_MAXT; ++i) in_scatter[i] = -1;
+      cur_job = 0; faults_thrown = 0; begin_job(0);
     }
+    void begin_job(int j) { cur_job = j; job_tasks = 0; job_combines = 0; job_assembled.assign(ncells, 0); job_scattered.assign(ncells, 0); }
+    bool fault(int kind, long arg) { if(fail_kind == kind && cur_job == fail_job && fail_arg == arg) { ++faults_thrown; return true; } return false; }
     uint64_t hash() const
     {
       verif::Hash h;
       for(int v : assembled) h.pod(v);
       for(int v : scattered) h.pod(v);
       for(int i = 0; i < VS_MAXT; ++i) h.pod(in_scatter[i]);
-      h.pod(in_combine).pod(combines).pod(tasks);
+      h.pod(in_combine).pod(combines).pod(tasks).pod(cur_job).pod(job_tasks).pod(job_combines).pod(faults_thrown);
+      for(int v : job_assembled) h.pod(v);
       return h.get();
     }
   };
@@ -55,9 +65,17 @@ namespace
       Index cell;
       static constexpr bool need_scatter = NS_;
       static constexpr bool need_combine = NC_;
-      explicit Task(InstrJob& j) : job(j), cell(~Index(0)) { ++job.L.tasks; }
-      void prepare(Index c) { cell = c; }
-      void assemble() { ++job.L.assembled.at(cell); }
+      explicit Task(InstrJob& j) : job(j), cell(~Index(0))
+      {
+        ++job.L.tasks;
+        if(job.L.fault(1, long(job.L.job_tasks++))) throw std::runtime_error("injected fault: task constructor");
+      }
+      void prepare(Index c) { cell = c; if(job.L.fault(2, long(c))) throw std::runtime_error("injected fault: prepare"); }
+      void assemble()
+      {
+        if(job.L.fault(5, long(cell))) throw std::runtime_error("injected fault: assemble");
+        ++job.L.assembled.at(cell); ++job.L.job_assembled.at(cell);
+      }
       void scatter()
       {
         Ledger& L = job.L;
@@ -70,7 +88,8 @@ namespace
             L.violation = o.str();
           }
         vs_point(1, long(cell));    // other threads may run while we are inside scatter
-        ++L.scattered.at(cell);
+        if(L.fault(3, long(cell))) { L.in_scatter[me] = -1; throw std::runtime_error("injected fault: scatter"); }
+        ++L.scattered.at(cell); ++L.job_scattered.at(cell);
         L.in_scatter[me] = -1;
       }
       void finish() {}
@@ -80,6 +99,7 @@ namespace
         ++L.in_combine;
         if(L.in_combine != 1 && L.violation.empty()) L.violation = "two threads inside combine()";
         vs_point(2, 0);
+        if(L.fault(4, long(L.job_combines++))) { --L.in_combine; throw std::runtime_error("injected fault: combine"); }
         ++L.combines;
         --L.in_combine;
       }
@@ -95,11 +115,14 @@ namespace
     int repeats;
     int pb, sb;     // preemption / spurious bound to iterate up to
     uint64_t max_exec = 0;
+    int fail_kind = 0; long fail_arg = 0; int fail_job = 0;   // injected task fault (0 = none)
     std::string str() const
     {
       std::ostringstream o;
       o << mesh.str() << " strategy=" << strategy_name(strat) << " max_workers=" << maxw << " need_scatter=" << ns << " need_combine=" << nc
         << " assemble_calls=" << repeats << " PB<=" << pb << " spurious<=" << sb;
+      static const char* fk[] = {"", "task-constructor#", "prepare(cell)", "scatter(cell)", "combine#", "assemble(cell)"};
+      if(fail_kind) o << " fault: " << fk[fail_kind] << fail_arg << " throws in assemble call " << fail_job;
       return o.str();
     }
   };
@@ -120,7 +143,7 @@ namespace
     }
   };
 
-  struct ExecResult { bool ok = true; std::string what; std::size_t workers = 0; };
+  struct ExecResult { bool ok = true; std::string what; std::size_t workers = 0; int faults = 0; };
 
   struct DeadCtx { verif::Ctx* c; const Cfg* cfg; int pb; };
   DeadCtx g_dead;
@@ -171,34 +194,50 @@ namespace
     }
     StateCtx sc{&L, &da._thread_fences};
     vsched::set_state_cb(state_cb, &sc);
+    L.fail_kind = cfg.fail_kind; L.fail_arg = cfg.fail_arg; L.fail_job = cfg.fail_job;
+    std::vector<char> sel(W.mesh.get_num_elements(), 0);
+    for(Index i : W.selected) sel[i] = 1;
+    const int tasks_per_job = W.selected.empty() ? 0 : int(r.workers == 0 ? 1 : r.workers);
+    std::ostringstream e;
     vsched::begin();
     for(int rep = 0; rep < cfg.repeats; ++rep)
     {
+      L.begin_job(rep);
+      const int tasks0 = L.tasks, comb0 = L.combines;
       if(cfg.ns && cfg.nc) { InstrJob<true, true> job(L); da.assemble(job); }
       else if(cfg.ns) { InstrJob<true, false> job(L); da.assemble(job); }
       else if(cfg.nc) { InstrJob<false, true> job(L); da.assemble(job); }
       else { InstrJob<false, false> job(L); da.assemble(job); }
+      // per-call oracle (pure computation on the master thread; all workers have been joined)
+      const bool faulty = (cfg.fail_kind != 0 && rep == cfg.fail_job && L.faults_thrown > 0);
+      for(Index i = 0; i < W.mesh.get_num_elements(); ++i)
+      {
+        const int a = L.job_assembled[i], sc = L.job_scattered[i];
+        const int want = sel[i] ? 1 : 0, wants = (sel[i] && cfg.ns) ? 1 : 0;
+        if(!faulty)
+        {
+          if(a != want) e << "call " << rep << ": cell " << i << " assembled " << a << " times instead of " << want << "; ";
+          if(sc != wants) e << "call " << rep << ": cell " << i << " scattered " << sc << " times instead of " << wants << "; ";
+        }
+        else
+        {
+          // a call in which a task threw must still terminate; what was assembled must have been assembled at most once
+          if(a > want) e << "faulty call " << rep << ": cell " << i << " assembled " << a << " times; ";
+          if(sc > wants || sc > a) e << "faulty call " << rep << ": cell " << i << " scattered " << sc << " times (assembled " << a << "); ";
+        }
+      }
+      if(L.tasks - tasks0 != tasks_per_job) e << "call " << rep << ": tasks created " << (L.tasks - tasks0) << " instead of " << tasks_per_job << "; ";
+      const int want_comb = cfg.nc ? tasks_per_job : 0;
+      if(!faulty && L.combines - comb0 != want_comb) e << "call " << rep << ": combine() ran " << (L.combines - comb0) << " times instead of " << want_comb << "; ";
+      if(faulty && L.combines - comb0 > want_comb) e << "faulty call " << rep << ": combine() ran " << (L.combines - comb0) << " times; ";
+      if(!da._threads.empty()) e << "call " << rep << ": thread vector not empty after assemble; ";
     }
     vsched::end();
     vsched::set_state_cb(nullptr, nullptr);
 
     if(vsched::diverged()) { r.ok = false; r.what = "MACHINERY: schedule prefix diverged on replay"; return r; }
-    std::ostringstream e;
     if(!L.violation.empty()) e << L.violation << "; ";
-    std::vector<char> sel(W.mesh.get_num_elements(), 0);
-    for(Index i : W.selected) sel[i] = 1;
-    for(Index i = 0; i < W.mesh.get_num_elements(); ++i)
-    {
-      const int want = sel[i] ? cfg.repeats : 0;
-      if(L.assembled[i] != want) e << "cell " << i << " assembled " << L.assembled[i] << " times instead of " << want << "; ";
-      const int wants = (sel[i] && cfg.ns) ? cfg.repeats : 0;
-      if(L.scattered[i] != wants) e << "cell " << i << " scattered " << L.scattered[i] << " times instead of " << wants << "; ";
-    }
-    const int ntasks_expected = W.selected.empty() ? 0 : cfg.repeats * int(r.workers == 0 ? 1 : r.workers);
-    if(L.tasks != ntasks_expected) e << "tasks created " << L.tasks << " instead of " << ntasks_expected << "; ";
-    const int want_comb = cfg.nc ? ntasks_expected : 0;
-    if(L.combines != want_comb) e << "combine() ran " << L.combines << " times instead of " << want_comb << "; ";
-    if(!da._threads.empty()) e << "thread vector not empty after assemble; ";
+    if(cfg.fail_kind != 0) r.faults = L.faults_thrown;
     r.what = e.str();
     r.ok = r.what.empty();
     return r;
@@ -253,6 +292,7 @@ namespace
           r = run_once(W, cfg, prefix, sb > 0);
         }
         if(!r.ok) failure = r.what;
+        if(cfg.fail_kind) { c.count("executions_with_injected_fault", uint64_t(r.faults > 0)); }
         return r.ok;
       });
       execs_total += ex.stats.executions;
@@ -379,6 +419,36 @@ int main(int argc, char** argv)
         Cfg cf; cf.mesh = m; cf.strat = s; cf.maxw = w; cf.ns = (fl & 1) == 0; cf.nc = (fl & 2) != 0; cf.repeats = 1;
         cf.pb = (w <= 4 && (T || s != Assembly::ThreadingStrategy::colored)) ? 1 : 0; cf.sb = 0; cf.max_exec = T ? 3000000u : 300000u;
         cfgs.push_back(cf);
+      }
+    }
+    // fault injection: one task operation throws in the first of two assemble() calls (the worker catches it and reports failure
+    // through its fence); every schedule must still terminate without deadlock/abort, nothing may be assembled twice or scattered
+    // concurrently with a neighbour, and the following clean call on the same assembler must assemble every cell exactly once
+    {
+      std::vector<MeshCfg> fm = {MeshCfg{0, 6, 0, 0, true}, MeshCfg{1, 3, 2, 0, true}, MeshCfg{2, 4, 0, 0, true}, MeshCfg{1, 3, 3, 0, true}};
+      if(T) { fm.push_back(MeshCfg{0, 9, 0, 0, true}); fm.push_back(MeshCfg{1, 4, 2, 0, true}); fm.push_back(MeshCfg{3, 3, 3, 0, true}); fm.push_back(MeshCfg{1, 4, 4, 0, true});
+              fm.push_back(MeshCfg{1, 3, 2, 0x2Du, false}); }
+      for(auto& m : fm) for(auto s : all_strategies) for(std::size_t w : {1u, 2u, 3u, 4u}) for(int fl = 0; fl < 4; ++fl)
+      {
+        const bool ns = (fl & 1) == 0, nc = (fl & 2) != 0;
+        const Index n = m.cells();
+        std::vector<std::pair<int, long>> faults;
+        for(long k = 0; k < long(w); ++k) if(k == 0 || k == 1 || k + 1 == long(w)) faults.push_back({1, k});
+        for(Index ci = 0; ci < n; ++ci) if(m.all || ((m.subset >> ci) & 1u))
+        {
+          if(w >= 2 || ci == 0) faults.push_back({2, long(ci)});
+          if(ns && w >= 2 && (T || n <= 6 || ci % 2 == 0)) faults.push_back({3, long(ci)});
+          if(w >= 2 && (ci == 0 || ci + 1 == n)) faults.push_back({5, long(ci)});
+        }
+        if(nc) { faults.push_back({4, 0}); if(w >= 2) faults.push_back({4, long(w) - 1}); }
+        for(auto& f : faults) for(int fj = 0; fj < 2; ++fj)
+        {
+          if(fj == 1 && !(f.first == 2 && f.second == 0) && !(f.first == 1 && f.second == 0)) continue;  // clean call first, then the faulty one
+          Cfg cf; cf.mesh = m; cf.strat = s; cf.maxw = w; cf.ns = ns; cf.nc = nc; cf.repeats = 2;
+          cf.fail_kind = f.first; cf.fail_arg = f.second; cf.fail_job = fj;
+          cf.pb = (T && n <= 9 && w <= 3) ? 2 : 1; cf.sb = 0; cf.max_exec = T ? 2000000u : 200000u;
+          cfgs.push_back(cf);
+        }
       }
     }
     for(const Cfg& cf : cfgs)
